@@ -7,6 +7,8 @@ import DocsModel.Model.Postcard
 import DocsModel.Model.Heads
 import DocsModel.Model.FilterText
 import DocsModel.Model.Migrations
+import DocsModel.Model.Ranger
+import DocsModel.Model.Replica
 /-!
 Line-protocol driver: one output line per input line. The Rust harness pipes the same operation
 lines it applied to the real crate and compares the two output streams.
@@ -37,7 +39,8 @@ def showBool (b : Bool) : String := if b then "1" else "0"
 
 def showEntry (e : Entry) : String :=
   ",".intercalate [e.ns.toHex, e.author.toHex, e.key.toHex, toString e.ts, toString e.len,
-    e.hash.toHex, toString e.sig, showBool e.nsSigOk, showBool e.authorSigOk]
+    e.hash.toHex, toString e.sig, showBool e.nsSigOk, showBool e.authorSigOk] ++
+    (if e.fp.isEmpty then "" else "," ++ e.fp.toHex)
 
 def showEntries (es : List Entry) : String :=
   "entries " ++ toString es.length ++ " " ++ ";".intercalate (es.map showEntry)
@@ -52,6 +55,10 @@ structure World where
   regs : List (Nat × List (Bytes × Nat × Bytes)) := []
   /-- capability imports per store since the document was (re-)created: `(ns, kind)` (for the C07 specification) -/
   imports : List (Nat × List (Bytes × Nat)) := []
+  /-- `SyncOutcome` of the session in progress, per store -/
+  outcomes : List (Nat × Replica.Outcome) := []
+  /-- named snapshots of entry sets (for the join specification) -/
+  snaps : List (String × List Entry) := []
 
 namespace World
 
@@ -135,6 +142,45 @@ def parseHeads? (s : String) : Option Heads.H :=
 
 def showHeadsMap (h : Heads.H) : String :=
   if h.isEmpty then "-" else ";".intercalate (h.map fun (a, ts) => a.toHex ++ "=" ++ toString ts)
+
+open Ranger in
+def parseValues? (s : String) : Option (List (Entry × Status)) :=
+  if s = "-" then some [] else
+  (s.splitOn "/").mapM fun v =>
+    match v.splitOn "~" with
+    | [e, st] => do pure (← parseEntry? e, ← parseNat? st)
+    | _ => none
+
+open Ranger in
+def parsePart? (s : String) : Option Part :=
+  match s.splitOn ";" with
+  | ["F", x, y, fp] => do pure (.fingerprint ⟨← Bytes.ofHex x, ← Bytes.ofHex y⟩ (← Bytes.ofHex fp))
+  | ["I", x, y, hl, vs] => do
+    pure (.item ⟨← Bytes.ofHex x, ← Bytes.ofHex y⟩ (← parseValues? vs) (← parseBool? hl))
+  | _ => none
+
+open Ranger in
+def parseMessage? (s : String) : Option Message :=
+  if s = "-" then some [] else (s.splitOn "|").mapM parsePart?
+
+open Ranger in
+def showValues (vs : List (Entry × Status)) : String :=
+  if vs.isEmpty then "-" else "/".intercalate (vs.map fun (e, st) => showEntry e ++ "~" ++ toString st)
+
+open Ranger in
+def showPart : Part → String
+  | .fingerprint r fp => "F;" ++ r.x.toHex ++ ";" ++ r.y.toHex ++ ";" ++ fp.toHex
+  | .item r vs hl => "I;" ++ r.x.toHex ++ ";" ++ r.y.toHex ++ ";" ++ showBool hl ++ ";" ++ showValues vs
+
+open Ranger in
+def showMessage (m : Message) : String :=
+  if m.isEmpty then "-" else "|".intercalate (m.map showPart)
+
+open Ranger in
+def showStep {S : Type} (st : Step S) (o : Replica.Outcome) : String :=
+  "reply " ++ (match st.reply with | some m => showMessage m | none => "none") ++
+  " ins " ++ showValues st.inserted ++
+  " out " ++ toString o.numRecv ++ " " ++ toString o.numSent ++ " " ++ showHeadsMap o.headsReceived
 
 def showInsertResult : Tables.InsertResult → String
   | .inserted n => "inserted " ++ toString n
@@ -288,6 +334,78 @@ def step (w : World) (line : String) : World × String :=
       let hist := ((w.imports.lookup sid).getD []).filter (·.1 == ns)
       (w, if hist.isEmpty then "none" else if hist.any (·.2 == 1) then "1" else "0")
     | _, _ => (w, "bad-op")
+  -- ---- reconciliation (Ranger.lean, Replica.lean) ----
+  | ["tinit", sid, ns] =>
+    match parseNat? sid, Bytes.ofHex ns with
+    | some sid, some ns =>
+      match w.getT sid with
+      | some t => (w, "msg " ++ showMessage (Ranger.initialMessage (Ranger.tableOps ns) t))
+      | none => (w, "no-store")
+    | _, _ => (w, "bad-op")
+  | ["oreset", sid] =>
+    match parseNat? sid with
+    | some sid => ({ w with outcomes := w.outcomes.filter (·.1 != sid) }, "ok")
+    | none => (w, "bad-op")
+  -- `Replica::sync_process_message` on the tables of store sid
+  | ["tproc", sid, ns, now, maxSet, split, msg] =>
+    match parseNat? sid, Bytes.ofHex ns, parseNat? now, parseNat? maxSet, parseNat? split, parseMessage? msg with
+    | some sid, some ns, some now, some maxSet, some split, some msg =>
+      match w.getT sid with
+      | some t =>
+        let o := (w.outcomes.lookup sid).getD {}
+        let (st, o') := Replica.syncProcessMessage { maxSetSize := maxSet, splitFactor := split } t ns now msg o
+        let w := { w.setT sid st.store with outcomes := (sid, o') :: w.outcomes.filter (·.1 != sid) }
+        (w, showStep st o')
+      | none => (w, "no-store")
+    | _, _, _, _, _, _ => (w, "bad-op")
+  -- `Replica::insert_remote_entry` with validation
+  | ["tremote", sid, ns, now, tok] =>
+    match parseNat? sid, Bytes.ofHex ns, parseNat? now, parseEntry? tok with
+    | some sid, some ns, some now, some e =>
+      match w.getT sid with
+      | some t =>
+        let (t', r) := Replica.insertRemoteEntry t ns now e
+        (w.setT sid t', match r with
+          | .ok n => "inserted " ++ toString n
+          | .newerEntryExists => "notinserted"
+          | .failed .invalidNamespace => "err:invalid-namespace"
+          | .failed .badSignature => "err:bad-signature"
+          | .failed .tooFarInTheFuture => "err:future"
+          | .failed .invalidEmptyEntry => "err:invalid-empty")
+      | none => (w, "no-store")
+    | _, _, _, _ => (w, "bad-op")
+  -- the same protocol on the reference ordered map (a Spec.Store)
+  | ["minit", sid] =>
+    match parseNat? sid with
+    | some sid =>
+      match w.getSpec sid with
+      | some s => (w, "msg " ++ showMessage (Ranger.initialMessage Ranger.mapOps s))
+      | none => (w, "no-store")
+    | none => (w, "bad-op")
+  | ["mproc", sid, ns, now, maxSet, split, msg] =>
+    match parseNat? sid, Bytes.ofHex ns, parseNat? now, parseNat? maxSet, parseNat? split, parseMessage? msg with
+    | some sid, some ns, some now, some maxSet, some split, some msg =>
+      match w.getSpec sid with
+      | some s =>
+        let st := Ranger.processMessage Ranger.mapOps { maxSetSize := maxSet, splitFactor := split }
+          (Replica.syncValidate now ns) (fun _ => 2) s msg
+        (w.setSpec sid st.store, "reply " ++ (match st.reply with | some m => showMessage m | none => "none") ++
+          " ins " ++ showValues st.inserted)
+      | none => (w, "no-store")
+    | _, _, _, _, _, _ => (w, "bad-op")
+  -- snapshots and the join specification of a session
+  -- a specification that is a constant (e.g. `mirror=1`)
+  | ["sconst", text] => (w, text)
+  | ["snap", name, sid, ns] =>
+    match parseNat? sid, Bytes.ofHex ns with
+    | some sid, some ns =>
+      match w.getT sid with
+      | some t => ({ w with snaps := (name, t.records.filter (·.ns == ns)) :: w.snaps.filter (·.1 != name) }, "ok")
+      | none => (w, "no-store")
+    | _, _ => (w, "bad-op")
+  | "sjoin" :: names =>
+    let all := names.flatMap fun n => (w.snaps.lookup n).getD []
+    (w, showEntries (sortById (Spec.join all)))
   -- delete derived tables (as plain redb would) and open the database again
   | ["tmigrate", sid, dl, dk] =>
     match parseNat? sid, parseBool? dl, parseBool? dk with
